@@ -161,12 +161,78 @@ func sendBodyEdges(g *cfgx.Graph, sendNode *cfgx.Node, send *ast.SendStmt) []*cf
 	return out
 }
 
+// slotTableField resolves the per-subnet in-flight table.
+func slotTableField(c *Ctx) *types.Var {
+	isTable := func(t types.Type) bool {
+		mt, ok := t.Underlying().(*types.Map)
+		return ok && isBasicKind(types.String)(mt.Key()) && isBasicKind(types.Int)(mt.Elem())
+	}
+	nt := c.P.Named("syncer", "Syncer")
+	st := nt.Underlying().(*types.Struct)
+	var cands []*types.Var
+	for i := 0; i < st.NumFields(); i++ {
+		fv := st.Field(i)
+		if fv.Name() == "inflightSubnet" {
+			return fv
+		}
+		if isTable(fv.Type()) {
+			cands = append(cands, fv)
+			continue
+		}
+		t := fv.Type()
+		if pt, ok := t.Underlying().(*types.Pointer); ok {
+			t = pt.Elem()
+		}
+		if in, ok := t.(*types.Named); ok && in.Obj().Pkg() == nt.Obj().Pkg() {
+			if ist, ok := in.Underlying().(*types.Struct); ok {
+				for j := 0; j < ist.NumFields(); j++ {
+					if isTable(ist.Field(j).Type()) {
+						cands = append(cands, ist.Field(j))
+					}
+				}
+			}
+		}
+	}
+	var out []*types.Var
+	for _, fv := range cands {
+		inc, dec := false, false
+		for _, f := range c.P.PkgFuncs("syncer") {
+			for _, fn := range append([]*ir.Func{f}, f.Lits...) {
+				for _, w := range fn.WritesIn(fn.Body, false) {
+					ix, ok := ast.Unparen(w.LHS).(*ast.IndexExpr)
+					if !ok || fn.FieldOf(ix.X) != fv {
+						continue
+					}
+					switch w.Tok {
+					case token.INC, token.ADD_ASSIGN:
+						inc = true
+					case token.DEC, token.SUB_ASSIGN:
+						dec = true
+					}
+				}
+			}
+		}
+		if inc && dec {
+			out = append(out, fv)
+		}
+	}
+	if len(out) != 1 {
+		ir.Fail("field syncer.Syncer.inflightSubnet not found (and no unique string→int table that is both incremented and decremented)")
+	}
+	return out[0]
+}
+
 // subnetSlotFns: the two Syncer methods that update the per-subnet in-flight
 // table: the one reporting a bool takes a slot, the one without results gives it back.
 func subnetSlotFns(c *Ctx) (acquire, release *types.Func) {
-	fld := c.P.Field("syncer", "Syncer", "inflightSubnet")
+	// the table: Syncer.inflightSubnet, or else the one map[string]int held by the Syncer (directly or grouped into a
+	// limiter type) whose entries the package both increments and decrements
+	fld := slotTableField(c)
 	var cands []*ir.Func
-	for _, raw := range c.P.MethodsOf("syncer", "Syncer") {
+	for _, raw := range c.P.PkgFuncs("syncer") {
+		if raw.Obj == nil || raw.Obj.Type().(*types.Signature).Recv() == nil {
+			continue
+		}
 		// with lock-bracket helpers and the closures handed to them expanded
 		f := c.P.Expand(raw, ir.ExpandOpt{Key: "unit"})
 		isTable := func(fn *ir.Func, e ast.Expr) bool {
